@@ -124,6 +124,10 @@ def term(f, j):
         return '_xlfn.IFNA(%sH1,%s)' % (P, x)  # the spellings Excel stores in files
     if f == 10:
         return '_xlfn.IFS(%sG1,%s,TRUE,0)' % (P, x)
+    if f == 11:
+        return 'IFS(%sG1,1,%s>0,2,TRUE,3)' % (P, x)     # the reference sits in a LATER TEST of IFS: tests are not lazy branches (a cycle through one is unavoidable)
+    if f == 12:
+        return 'IFS(NOT(%sG1),1,TRUE,%s)' % (P, x)      # the reference is the value of the last pair: reached only when the first test fails... (G1 true)
     raise ValueError(f)
 
 
@@ -177,7 +181,7 @@ def calc_file(mat, g, h, g2=None):
 
 
 def active(f, g, h, g2=None):
-    return f in (1, 3, 4) or (f in (2, 6, 10) and g) or (f in (5, 7, 9) and h) or (f == 8 and (g if g2 is None else g2))
+    return f in (1, 3, 4) or (f in (2, 6, 10, 12) and g) or (f in (5, 7, 9) and h) or (f == 8 and (g if g2 is None else g2)) or f == 11
 
 
 def oracle(mat, g, h, g2=None):
@@ -189,7 +193,7 @@ def oracle(mat, g, h, g2=None):
       statement: the lazy value or the circular error are both accepted (returned as ('AMB', value))."""
     act = {i: [j for j, f in enumerate(mat[i]) if f and active(f, g, h, g2)] for i in range(3)}
     stat = {i: [j for j, f in enumerate(mat[i]) if f] for i in range(3)}
-    lazy = lambda i, j: mat[i][j] in (2, 5, 6, 7, 8, 9, 10)
+    lazy = lambda i, j: mat[i][j] in (2, 5, 6, 7, 8, 9, 10, 12)
 
     def reach(graph, i):
         seen, todo = set(), list(graph[i])
@@ -199,8 +203,12 @@ def oracle(mat, g, h, g2=None):
                 seen.add(x)
                 todo.extend(graph[x])
         return seen
-    R = {i: reach(act, i) for i in range(3)}
-    circ = {i for i in range(3) if i in R[i]}
+    Rc = {i: reach(act, i) for i in range(3)}
+    circ = {i for i in range(3) if i in Rc[i]}
+    # values travel along the edges that are really read: a later test of IFS (form 11) is skipped once an earlier test holds,
+    # although a cycle through it counts as unavoidable (tests are not lazy branches)
+    actv = {i: [j for j in act[i] if not (mat[i][j] == 11 and g)] for i in range(3)}
+    R = {i: reach(actv, i) for i in range(3)}
     # static simple cycles (3 nodes: brute force over node sequences)
     amb = set()
     for n in (1, 2, 3):
@@ -220,8 +228,16 @@ def oracle(mat, g, h, g2=None):
             elif R[i] & circ:
                 val[i] = 'ERR'
             else:
-                val[i] = float(i + 1 + sum(ev(j) for j in act[i]))
+                val[i] = float(i + 1 + sum(contrib(i, j) for j in range(3) if mat[i][j]))
         return val[i]
+
+    def contrib(i, j):
+        f = mat[i][j]
+        if f == 11:                       # IFS(G1,1,X>0,2,TRUE,3)
+            return 1.0 if g else (2.0 if ev(j) > 0 else 3.0)
+        if f == 12:                       # IFS(NOT(G1),1,TRUE,X)
+            return ev(j) if g else 1.0
+        return ev(j) if j in act[i] else 0.0
     for i in range(3):
         ev(i)
     for i in range(3):
@@ -429,7 +445,7 @@ def wb_cases(tier):
                 base[k] = 1
         for m in (1,) if q else (1, 2):
             for pos in itertools.combinations(offdiag, m):
-                for forms in itertools.product((3, 4, 5, 6, 7, 9, 10), repeat=m):
+                for forms in itertools.product((3, 4, 5, 6, 7, 9, 10, 11, 12), repeat=m):
                     flat = list(base)
                     for k, f in zip(pos, forms):
                         flat[k] = f
